@@ -979,3 +979,21 @@ package transaction
 //@   loop 0 invariant idx: -1 <= i && i <= len(a) / 2 - 1
 //@   loop 0 invariant done: forall k int :: 0 <= k && k < len(a) ==> a[k] == ((i < k && k < len(a) - 1 - i) ? old(a[len(a) - 1 - k]) : old(a[k]))
 //@   loop 0 invariant only: allelems(a) == store(old(allelems(a)), arrref(a), select(allelems(a), arrref(a)))
+
+//@ # ---------------------------------------------------------------- C14/C05: only its owner cancels an order
+//@ func (RemoveLimitOrderData).Run
+//@   serves C14 C05
+//@   splitreturns
+//@   let st = typeis(context, "*state.CheckState") ? as(context, "*state.CheckState").state : as(context, "*state.State")
+//@   requires tx != nil && rewardPool != nil && price != nil && senderKnown(tx)
+//@   requires ctx: typeis(context, "*state.CheckState") || typeis(context, "*state.State")
+//@   requires ctxcheck: typeis(context, "*state.CheckState") ==> as(context, "*state.CheckState") != nil
+//@   requires modules: st != nil && st.Accounts != nil && st.Coins != nil && st.Commission != nil && (st.SwapV2 != nil || st.Swap != nil)
+//@   requires price.val >= 0
+//@   requires gascoin: tx.GasCoin == 0 || coinExists(st.Coins, tx.GasCoin)
+//@   assumespre (*Accounts).AddBalance: the delivery half of Run is outside this contract
+//@   assumespre (*Accounts).SubBalance: the delivery half of Run is outside this contract
+//@   assumespre (*Coins).SubReserve: the delivery half of Run is outside this contract
+//@   assumespre (*Coins).SubVolume: the delivery half of Run is outside this contract
+//@   assumespre iface _.PairSellWithOrders: the delivery half of Run is outside this contract
+//@   ensures [C14,C05] owneronly: result.Code == 0 ==> old(orderExists(data.ID)) && old(orderOwner(data.ID)) == old(senderOf(tx))
